@@ -292,9 +292,15 @@ def replay_case(case):
         org = np.array([exact.dyf(c) for c in case["origin"]])
         orders = np.array(case["orders"], dtype=int).reshape(-1, 3)
         got = f(shells1, org, orders, transform=T) if T is not None else f(shells1, org, orders)
-        # floor: 1e-11 of the largest element of the array (the natural scale of these moments; see the momentum case)
+        # floor: 1e-11 of the NATURAL scale of each requested moment -- the largest element of the moment with every odd order
+        # raised to the next even one.  (The largest element of the array itself is no scale: shells on one centre with the
+        # origin on it have ALL odd moments equal to zero by parity, and what an implementation returns there is the
+        # rounding of P - C ~ 1e-14 at coordinates ~100 bohr times <x^2 ...> -- found by the seed sweep, C07 seed 1 case 71.)
+        even = [[o + (o % 2) for o in od] for od in case["orders"]]
+        nat, _, _ = oracle(dict(case, orders=even, tlc=None), "moment")
+        natscale = np.abs(tr2abs(np.abs(nat[:n1, :n1]))).reshape(-1, len(even)).max(axis=0)
         res["dev"]["moment"] = compare(V, "moment_integral", got, tr2(want),
-                                       1e-8 * tr2abs(wantabs) + 1e-11 * float(np.abs(tr2(want)).max()) + 1e-13, case)
+                                       1e-8 * tr2abs(wantabs) + 1e-11 * np.maximum(natscale, float(np.abs(tr2(want)).max()))[None, None, :] + 1e-13, case)
     elif what in ("momentum", "angmom"):
         modname = "gbasis.integrals.momentum" if what == "momentum" else "gbasis.integrals.angular_momentum"
         fname = "momentum_integral" if what == "momentum" else "angular_momentum_integral"
